@@ -128,6 +128,9 @@ func oracleC10(p *Plan, res *Result, exact bool) *common.Fail {
 			}
 		}
 	}
+	if res.ReceiverStuck {
+		return failTrace(evs, len(evs)-1, "receiver-leak", "after Close the socket's receiver goroutine stayed blocked handing over a frame that arrived around Close (e.g. the disconnect response): nobody reads the socket any more, so that goroutine never ends")
+	}
 	if !res.InboundClosed || res.DrainTimedOut {
 		return failTrace(evs, len(evs)-1, "inbound-not-closed", "Inbound() was not closed after Close (a range loop over it would not end)")
 	}
